@@ -4,7 +4,7 @@
    of symbol x designates.  Proofs: IR/Symbols.v.  The end-to-end statement (positions after apply() = positions
    in the edited listing) is checked on the implementation by the listing oracle of harness/c02.py. *)
 From Coq Require Import ZArith List Bool Arith.
-From GR Require Import Base.Result Adt.RefCache Adt.RefCacheProofs IR.State IR.Modify IR.Edit IR.Symbols IR.SymbolsRemove.
+From GR Require Import Base.Result Adt.RefCache Adt.RefCacheProofs IR.State IR.Modify IR.Edit IR.Symbols IR.SymbolsRemove IR.FindingsGen.
 Import ListNotations.
 Open Scope Z_scope.
 
@@ -96,3 +96,20 @@ Proof.
   - apply Inv_init. cbn. repeat constructor; cbn; intuition discriminate.
   - repeat split; vm_compute; reflexivity.
 Qed.
+
+(* ===== the recorded findings, as facts about the faithful model (witnesses: IR/FindingsGen.v, the model input of the corpus cases) =====
+   "A label keeps designating its place" is FALSE of whole rewrites on these inputs; both were replayed on the implementation. *)
+
+(* C02-end-label-captured-by-proxied-successor: label 3 ends block 0 (interval 100, offset 5); a patch is inserted at the end of block 0
+   and block 1 is deleted with retarget_to_proxy: the label ends up on the fresh proxy 901 and has no place in the listing any more *)
+Theorem C02_end_label_captured_by_a_proxied_successor_refuted :
+  exists s', G1.final = Some s' /\ sym_pos G1.W_state 3%nat = Some (100%nat, 5) /\
+    abs (rcache s') 3%nat = (Some 901%nat, false) /\ In 901%nat (proxies s') /\ sym_pos s' 3%nat = None.
+Proof. eexists. split; [vm_compute; reflexivity|]. repeat split; vm_compute; auto. Qed.
+
+(* C02-label-ending-a-data-patch-follows-later-insertions: the byte at offset 2 of data block [ab 6e 02] is replaced by `.byte 0x77, 0x77; .Ld:`
+   and the bytes 02 03 are inserted at offset 3: the listing is ab 6e 77 77 .Ld: 02 03, but the label (500) designates offset 6, not 4 *)
+Theorem C02_label_ending_a_data_patch_refuted :
+  exists s' iv, G2.final = Some s' /\ In (101%nat, iv) (ivals s') /\ icontents iv = [171; 110; 119; 119; 2; 3] /\
+    sym_pos s' 500%nat = Some (101%nat, 6).
+Proof. eexists. eexists. split; [vm_compute; reflexivity|]. split; [left; reflexivity|]. split; vm_compute; reflexivity. Qed.
